@@ -151,6 +151,36 @@ def handle (op : String) (j : Json) : Except String Json := do
                                ("numViolations", rep.summary.numViolations), ("filesFailed", rep.summary.filesFailed)]),
       ("enabled", Json.arr ((enabled.toArray.qsort (· < ·)).map Json.str)),
       ("cfgLevels", Json.mkObj (cfg.rules.map fun (r, rc) => (key r, Json.str (rc.level.getD "<none>"))))]
+  | "kernel.twophase" =>
+    let files := parseFiles j
+    let params := parseParams j
+    let prefix_ := ((optStr j "prefix").getD "").toList
+    let cfg := mergeCfg (parseProvided j) (parseUser j) prefix_
+    let env := World.env (boolOr j "noStringsCount")
+    let gm := matcherOf j
+    let ign := goGlobalIgnore params.ignoreFiles cfg.ignoreFiles
+    let parts : List (List String) := match getArr j "parts" with
+      | .ok a => a.toList.map fun pj => match pj.getArr? with
+          | .ok ns => ns.toList.filterMap fun n => n.getStr?.toOption
+          | .error _ => []
+      | .error _ => []
+    let order : List Nat := match getArr j "mergeOrder" with
+      | .ok a => a.toList.filterMap fun n => n.getNat?.toOption
+      | .error _ => []
+    let exportsOf (names : List String) : List (String × List Agg) :=
+      let fs := names.filterMap fun n => files.find? fun f => f.name = n.toList
+      let kept := goFilterPaths gm (fs.map (·.name)) ign (goNormPrefix prefix_)
+      let fs := fs.filter fun f => kept.contains f.name
+      (mergeAll (fs.map (lintFile env gm cfg params true))).aggregates
+    let exports := parts.map exportsOf
+    -- Go merges each exported map key by key in sorted key order; per key the order of parts is `order`
+    let merged := (order.filterMap fun i => exports[i]?).flatMap id
+    let merged := merged.foldl (fun m kv => aggInsert m kv.1 kv.2) []
+    if merged.isEmpty then
+      return Json.mkObj [("violations", Json.arr #[]), ("nothingToReport", true)]
+    let rep := lint env gm cfg params { overridden := merged } []
+    let vs := rep.violations.map fun v => jviol v true
+    return Json.mkObj [("violations", Json.arr (sortJ vs).toArray)]
   | _ => throw s!"unknown op {op}"
 
 end Driver.Kernel
